@@ -271,7 +271,7 @@ pub struct GivenValue {
 pub struct RefSolver {
     pub profile: Profile,
     pub policy: Policy,
-    rng_model: Rng,
+    rng_model: std::cell::RefCell<Rng>,
     rng_core: Rng,
     rng_print: Rng,
     pub terms: Terms,
@@ -282,7 +282,8 @@ pub struct RefSolver {
     produce_unsat_assumptions: bool,
     pub mode: Mode,
     /// model over declared symbols after the last sat answer
-    pub model: FxHashMap<u32, Val>,
+    /// values of the declared symbols in the current model, filled on demand
+    model: std::cell::RefCell<FxHashMap<u32, Val>>,
     model_memo: FxHashMap<TermId, Val>,
     /// assumptions of the last check-sat-assuming: (original sexp, term)
     last_assumptions: Vec<(Sexp, TermId)>,
@@ -301,7 +302,7 @@ impl RefSolver {
         RefSolver {
             profile,
             policy,
-            rng_model: Rng::stream(seed, "solver.model"),
+            rng_model: std::cell::RefCell::new(Rng::stream(seed, "solver.model")),
             rng_core: Rng::stream(seed, "solver.core"),
             rng_print: Rng::stream(seed, "solver.print"),
             terms: Terms::new(),
@@ -310,7 +311,7 @@ impl RefSolver {
             logic: None,
             produce_unsat_assumptions: false,
             mode: Mode::Start,
-            model: FxHashMap::default(),
+            model: std::cell::RefCell::new(FxHashMap::default()),
             model_memo: FxHashMap::default(),
             last_assumptions: vec![],
             last_core: vec![],
@@ -690,28 +691,25 @@ impl RefSolver {
         let sat = self
             .blaster
             .sat
-            .solve(&all, &mut self.rng_model, self.policy.polarity);
+            .solve(&all, self.rng_model.get_mut(), self.policy.polarity);
         self.last_assumptions = assumps;
-        self.model.clear();
+        self.model.get_mut().clear();
         self.model_memo.clear();
         if sat {
             self.stats.sat += 1;
-            // extract model over all visible declared symbols
-            for id in self.terms.visible_declared() {
-                let sort = self.terms.syms[id as usize].sort;
-                let v = match self.blaster.model_of(id, sort) {
-                    Some(v) => v,
-                    None => self.dont_care_value(sort),
-                };
-                self.model.insert(id, v);
-            }
+            // the SAT solver keeps the satisfying assignment; values of declared symbols are
+            // extracted from it on demand (`eval_in_model`)
             self.blaster.sat.reset_to_root();
-            // self-validation: every active assertion and assumption holds in the model
+            // self-validation: every active assertion and assumption holds in the model (every
+            // check of the first 64 of a session, every eighth afterwards: long PDR sessions
+            // would otherwise spend most of their time here)
+            let validate = self.stats.checks <= 64 || self.stats.checks % 8 == 0;
             let to_check: Vec<TermId> = self
                 .assertions
                 .iter()
                 .map(|(_, t, _)| *t)
                 .chain(self.last_assumptions.iter().map(|(_, t)| *t))
+                .filter(|_| validate)
                 .collect();
             for t in to_check {
                 if !self.eval_in_model(t).bv().is_true() {
@@ -778,7 +776,7 @@ impl RefSolver {
         }
     }
 
-    fn dont_care_value(&mut self, sort: Sort) -> Val {
+    fn dont_care_value(rng: &mut Rng, mode: PolarityMode, sort: Sort) -> Val {
         let pick = |rng: &mut Rng, mode: PolarityMode, w: u32| -> u128 {
             match mode {
                 PolarityMode::Zeros => {
@@ -798,16 +796,15 @@ impl RefSolver {
                 _ => rng.bits_shaped(w),
             }
         };
-        let mode = self.policy.polarity;
         match sort {
-            Sort::Bool => Val::B(Bv::new(1, pick(&mut self.rng_model, mode, 1))),
-            Sort::Bv(w) => Val::B(Bv::new(w, pick(&mut self.rng_model, mode, w))),
+            Sort::Bool => Val::B(Bv::new(1, pick(rng, mode, 1))),
+            Sort::Bv(w) => Val::B(Bv::new(w, pick(rng, mode, w))),
             Sort::Arr(i, d) => {
-                let mut a = Arr::constant(i.width(), d.width(), pick(&mut self.rng_model, mode, d.width()));
-                let n = self.rng_model.below(3);
+                let mut a = Arr::constant(i.width(), d.width(), pick(rng, mode, d.width()));
+                let n = rng.below(3);
                 for _ in 0..n {
-                    let idx = self.rng_model.bits_shaped(i.width());
-                    let dv = self.rng_model.bits_shaped(d.width());
+                    let idx = rng.bits_shaped(i.width());
+                    let dv = rng.bits_shaped(d.width());
                     a = a.store(idx, dv);
                 }
                 Val::A(a)
@@ -818,19 +815,29 @@ impl RefSolver {
     pub fn eval_in_model(&mut self, t: TermId) -> Val {
         let model = &self.model;
         let terms = &self.terms;
+        let blaster = &self.blaster;
+        let rng = &self.rng_model;
+        let mode = self.policy.polarity;
         let env = |id: u32| -> Val {
-            match model.get(&id) {
-                Some(v) => v.clone(),
-                None => {
-                    // a symbol that is no longer visible cannot be referenced by a checked term
-                    let s = terms.syms[id as usize].sort;
-                    match s {
-                        Sort::Bool => Val::B(Bv::new(1, 0)),
-                        Sort::Bv(w) => Val::B(Bv::new(w, 0)),
-                        Sort::Arr(i, d) => Val::A(Arr::constant(i.width(), d.width(), 0)),
-                    }
-                }
+            if let Some(v) = model.borrow().get(&id) {
+                return v.clone();
             }
+            let sym = &terms.syms[id as usize];
+            let s = sym.sort;
+            if !terms.is_visible_declared(id) {
+                // a symbol that is no longer visible cannot be referenced by a checked term
+                return match s {
+                    Sort::Bool => Val::B(Bv::new(1, 0)),
+                    Sort::Bv(w) => Val::B(Bv::new(w, 0)),
+                    Sort::Arr(i, d) => Val::A(Arr::constant(i.width(), d.width(), 0)),
+                };
+            }
+            let v = match blaster.model_of(id, s) {
+                Some(v) => v,
+                None => Self::dont_care_value(&mut rng.borrow_mut(), mode, s),
+            };
+            model.borrow_mut().insert(id, v.clone());
+            v
         };
         terms.eval(t, &env, &mut self.model_memo)
     }
